@@ -24,7 +24,8 @@ func init() {
 				"either adds one to held, moves held to in-flight, delivers in-flight, or adds in-flight back to held).",
 			NotCovered: "the induction over interleavings itself is a paper argument, not mechanised; the uploader's own behaviour.",
 			Rules: map[string]string{"C16-R1": "records only under mu", "C16-R2": "Refresh: upload what was reset, remerge iff failed",
-				"C16-R3": "remerge: insert or add counts", "C16-R4": "Record: new=1, existing+1, metadata from arguments"},
+				"C16-R3": "remerge: insert or add counts", "C16-R4": "Record: new=1, existing+1, metadata from arguments",
+				"C16-R5": "uploader: nil result only if every record was sent and the stream closed cleanly (error kinds nil / io.EOF / other tracked through wrapping, Join and errors.Is)"},
 		}})
 }
 
@@ -33,6 +34,7 @@ func runC16(c *an.Ctx) {
 	c.Floor("C16-R2", 1)
 	c.Floor("C16-R3", 1)
 	c.Floor("C16-R4", 1)
+	c.Floor("C16-R5", 1)
 
 	// ---- R1
 	cache := map[*ssa.Function]map[ssa.Instruction]an.Held{}
@@ -175,4 +177,126 @@ func runC16(c *an.Ctx) {
 		},
 	})
 	_ = token.NoPos
+
+	// ---- R5: the gRPC uploader reports success only when everything was delivered
+	c16Upload(c)
+}
+
+// errKinds are the abstract error values of the uploader table: nil, io.EOF
+// (what grpc's Send returns when the stream is already broken) and any other.
+var errKinds = []an.AV{an.Nil(), an.NonNil("err:eof"), an.NonNil("err:other")}
+
+// joinErrLabels models wrapping (%w) and errors.Join: the result is non-nil if
+// any operand is a non-nil error and "is" io.EOF if any operand is.
+func joinErrLabels(args []an.AV, wrapAlways bool) an.AV {
+	eof, other := false, false
+	for _, a := range args {
+		if a.Kind != an.KNonNil || !strings.HasPrefix(a.Key, "err:") {
+			continue
+		}
+		if strings.Contains(a.Key, "eof") {
+			eof = true
+		} else {
+			other = true
+		}
+	}
+	switch {
+	case eof:
+		return an.NonNil("err:wrapped-eof")
+	case other || wrapAlways:
+		return an.NonNil("err:other")
+	}
+	return an.Nil()
+}
+
+func c16Upload(c *an.Ctx) {
+	flat := func(args []an.AV) (out []an.AV) {
+		for _, a := range args {
+			if a.Kind == an.KSlice {
+				out = append(out, a.Tup...)
+			} else {
+				out = append(out, a)
+			}
+		}
+		return out
+	}
+	decide(c, "C16-R5", "backendpb.(*BillStat).Upload", an.DecideCfg{
+		Dom: an.Domain{"len(p2)": an.Ints(0, 2), "next(range(p2))#0": an.Bools, "next(range(p2))#1": an.Bools, "next(range(p2))#2": {an.CBool(false)},
+			"openerr": an.Bools, "send0": errKinds, "send1": errKinds, "closeerr": errKinds, "io.EOF": {an.NonNil("err:eof")}},
+		OnCall: func(it *an.Interp, name string, args []an.AV) (an.AV, bool) {
+			switch {
+			case strings.HasSuffix(name, ".SaveDevicesBillingStat"):
+				if it.Feature("openerr").IsTrue() {
+					return an.AV{Kind: an.KTuple, Tup: []an.AV{an.Nil(), an.NonNil("err:other")}}, true
+				}
+				return an.AV{Kind: an.KTuple, Tup: []an.AV{an.NonNil("stream"), an.Nil()}}, true
+			case strings.HasSuffix(name, "stream.Send"):
+				i := "0"
+				if len(args) > 0 && strings.Contains(args[len(args)-1].String(), "#1") {
+					i = "1"
+				}
+				return it.Feature("send" + i), true
+			case strings.HasSuffix(name, "stream.CloseAndRecv"):
+				return an.AV{Kind: an.KTuple, Tup: []an.AV{an.Sym("resp"), it.Feature("closeerr")}}, true
+			case strings.HasSuffix(name, "backendpb.fixGRPCError"):
+				return args[2], true
+			case strings.HasSuffix(name, "backendpb.recordToProtobuf"):
+				return an.NonNil("pb(" + args[0].String() + ")"), true
+			case name == "fmt.Errorf":
+				return joinErrLabels(flat(args), true), true
+			case name == "errors.Join", strings.HasSuffix(name, "golibs/errors.Join"):
+				return joinErrLabels(flat(args), false), true
+			case name == "errors.Is", strings.HasSuffix(name, "golibs/errors.Is"):
+				return an.CBool(args[0].Kind == an.KNonNil && strings.Contains(args[0].Key, "eof") && strings.Contains(args[1].String(), "eof")), true
+			case strings.HasSuffix(name, "backendpb.ctxWithAuthentication"):
+				return an.NonNil("ctx"), true
+			case strings.HasSuffix(name, "errcoll.Collect"):
+				return an.Nil(), true
+			}
+			return an.AV{}, false
+		},
+		Expect: func(f an.Features, o an.AOutcome) string {
+			if o.Exit != "return" || len(o.Ret) != 1 {
+				return "an error result"
+			}
+			if f.I("len(p2)") == 0 {
+				if o.Ret[0].Kind == an.KNil && len(o.Calls()) == 0 {
+					return ""
+				}
+				return "nothing done for an empty batch"
+			}
+			fail := f.B("openerr")
+			sent := 0
+			if !fail {
+				for i := 0; i < 2; i++ {
+					if !f.B(fmt.Sprintf("next(range(p2))#%d", i)) {
+						break
+					}
+					sent++
+					if !f.IsNil(fmt.Sprintf("send%d", i)) {
+						fail = true
+						break
+					}
+				}
+			}
+			if !fail && f.Key("closeerr") == "err:other" {
+				fail = true
+			}
+			if fail != (o.Ret[0].Kind != an.KNil) {
+				return fmt.Sprintf("error=%v: a nil result only when the stream opened, every Send succeeded and the stream closed with nil or io.EOF (a failed Send reports io.EOF when the stream is broken; the batch must then be kept for the next upload)", fail)
+			}
+			if !f.B("openerr") {
+				n := 0
+				for _, e := range o.Effects {
+					if e.Kind == "call" && strings.HasSuffix(e.Name, "stream.Send") {
+						n++
+					}
+				}
+				if n != sent {
+					return fmt.Sprintf("%d records sent, one per record of the batch up to the first failure; got %d", sent, n)
+				}
+			}
+			return ""
+		},
+	})
 }
